@@ -124,7 +124,16 @@ abbrev M := Except Fail
 
 /-! ## Helpers mirroring the Go helpers -/
 
-def strBytes (s : String) : Bytes := s.toUTF8.toList
+/-- UTF-8 encoding of one character (written out so that the kernel can evaluate it on literals). -/
+def utf8Char (c : Char) : Bytes :=
+  let v := c.toNat
+  if v < 0x80 then [UInt8.ofNat v]
+  else if v < 0x800 then [UInt8.ofNat (0xC0 + v / 64), UInt8.ofNat (0x80 + v % 64)]
+  else if v < 0x10000 then [UInt8.ofNat (0xE0 + v / 4096), UInt8.ofNat (0x80 + (v / 64) % 64), UInt8.ofNat (0x80 + v % 64)]
+  else [UInt8.ofNat (0xF0 + v / 262144), UInt8.ofNat (0x80 + (v / 4096) % 64), UInt8.ofNat (0x80 + (v / 64) % 64), UInt8.ofNat (0x80 + v % 64)]
+
+/-- `[]byte(s)` of a Go string. -/
+def strBytes (s : String) : Bytes := s.toList.flatMap utf8Char
 
 /-- `utils.GetUint64Bytes` (little endian). -/
 def u64le (n : Nat) : Bytes := (List.range 8).map (fun i => UInt8.ofNat ((n >>> (8 * i)) % 256))
@@ -190,6 +199,19 @@ def sigCore (info : Bool × List (Addr × Bytes)) (cons : List Addr) (a : Addr) 
   let num := countIn cons (info.2.map (·.1)) + (if fresh then 1 else 0)
   let reached := sigmgr_CheckSigns1 (num : Nat) (cons.length : Nat)
   ((info.1 || reached, entries), reached && !info.1)
+
+/-- `CheckVotes` on one ledger entry `(released, voters)` given the consensus addresses: `none` = rejected (the voter is
+not a consensus member), otherwise the new entry and whether this vote releases the message. A released entry ignores
+every further vote. -/
+def voteStep (info : Bool × List Addr) (cons : List Addr) (a : Addr) : Option ((Bool × List Addr) × Bool) :=
+  if info.1 then some (info, false)
+  else if !cons.contains a then none
+  else some (((voteCore info.2 cons a).2, (voteCore info.2 cons a).1), (voteCore info.2 cons a).2)
+
+/-- `CheckSigns` on one entry: `none` = rejected (not a consensus member), otherwise new entry and `shouldEmit`. -/
+def sigStep (info : Bool × List (Addr × Bytes)) (cons : List Addr) (a : Addr) (sig : Bytes) :
+    Option ((Bool × List (Addr × Bytes)) × Bool) :=
+  if !cons.contains a then none else some (sigCore info cons a sig)
 
 section
 variable (H : Bytes → Bytes)
@@ -566,7 +588,7 @@ def plan (s : State) : Op → M Plan
                         .ok ({ s1 with svs := if (l.foldl (fun acc x => acc.erase x) (s1.svs.getD [])).isEmpty then none
                                               else some (l.foldl (fun acc x => acc.erase x) (s1.svs.getD [])),
                                        svRemove := alErase s1.svRemove id }, "ApproveRemoveStateValidator") })
-  -- consensus_vote.CheckVotes
+  -- consensus_vote.CheckVotes (the released flag is tested before the pool is read)
   | .vote id a =>
     if ((alGet s.votes id).getD (false, [])).1 then .ok (.done { st := s, ret := "0", events := [] }) else
     match curPool s with
@@ -575,9 +597,10 @@ def plan (s : State) : Op → M Plan
       match consAddrs s pool with
       | none => .error .err
       | some cons =>
-        if !cons.contains a then .error .err else
-        let r := voteCore ((alGet s.votes id).getD (false, [])).2 cons a
-        .ok (.done { st := { s with votes := alPut s.votes id (r.2, r.1) }, ret := if r.2 then "1" else "0", events := [] })
+        match voteStep ((alGet s.votes id).getD (false, [])) cons a with
+        | none => .error .err
+        | some (info, released) =>
+          .ok (.done { st := { s with votes := alPut s.votes id info }, ret := if released then "1" else "0", events := [] })
   -- signature_manager.AddSignature / CheckSigns
   | .sig sg a subject sig =>
     if !witness sg a then .error .err else
@@ -587,10 +610,11 @@ def plan (s : State) : Op → M Plan
       match consAddrs s pool with
       | none => .error .err
       | some cons =>
-        if !cons.contains a then .error .err else
-        let r := sigCore ((alGet s.sigs (H subject)).getD (false, [])) cons a sig
-        .ok (.done { st := { s with sigs := alPut s.sigs (H subject) r.1 }, ret := "1",
-                     events := if r.2 then ["AddSignatureQuorum"] else [] })
+        match sigStep ((alGet s.sigs (H subject)).getD (false, [])) cons a sig with
+        | none => .error .err
+        | some (info, emit) =>
+          .ok (.done { st := { s with sigs := alPut s.sigs (H subject) info }, ret := "1",
+                       events := if emit then ["AddSignatureQuorum"] else [] })
 
 /-- Carrying out a plan: an approval goes through `CheckConsensusSigns`; the action is applied iff the quorum is reached. -/
 def runPlan (s : State) : Plan → M Out
